@@ -633,4 +633,78 @@ theorem scanP_ok_of_headers (dev : Nat → Nat → R Bytes) (first : Nat) (k i :
     simp only [scanP, scanEntryP_eq, hh0, Res.bind_ok, Res.pure_eq]
     exact ih (i + 1) _ (fun j h1 h2 => hh j (by omega) (by omega))
 
+/-! ## The stepwise file read reads the advertised range completely -/
+
+/-- the bytes `[a, a+n)` of a memory image -/
+def memRange (mem : Nat → UInt8) (a n : Nat) : Bytes := (List.range n).map fun i => mem (a + i)
+
+theorem memRange_add (mem : Nat → UInt8) (a n m : Nat) :
+    memRange mem a (n + m) = memRange mem a n ++ memRange mem (a + n) m := by
+  simp only [memRange, List.range_add, List.map_append, List.map_map]
+  congr 1
+  apply List.map_congr_left
+  intro i _
+  simp [Nat.add_assoc]
+
+/-- `dev` serves every sub-range of the file `[addr, addr+size)` from the image `mem` -/
+def ServesFile (dev : Nat → Nat → R Bytes) (mem : Nat → UInt8) (addr size : Nat) : Prop :=
+  ∀ off n, 0 < n → off + n ≤ size → dev (addr + off) n = .ok (memRange mem (addr + off) n)
+
+theorem readFileLoopP_mem (dev : Nat → Nat → R Bytes) (mem : Nat → UInt8) (addr size : Nat)
+    (hs : ServesFile dev mem addr size) (ha : addr + size ≤ 2 ^ 64)
+    (fuel offset : Nat) (ho : offset ≤ size) (hf : size - offset ≤ fuel * XML_READ_STEP) :
+    readFileLoopP dev addr size fuel offset (memRange mem addr offset) = .ok (memRange mem addr size) := by
+  induction fuel generalizing offset with
+  | zero =>
+    have : offset = size := by omega
+    subst this; rfl
+  | succ fuel ih =>
+    unfold readFileLoopP
+    by_cases hlt : offset < size
+    · have hstep : 0 < min XML_READ_STEP (size - offset) := by
+        have : 0 < XML_READ_STEP := by decide
+        omega
+      have hle : offset + min XML_READ_STEP (size - offset) ≤ size := by omega
+      simp only [hlt, if_true]
+      rw [if_pos (by omega)]
+      simp only [Res.bind_ok, hs offset _ hstep hle, ← memRange_add]
+      apply ih _ hle
+      rw [Nat.succ_mul] at hf
+      omega
+    · have : offset = size := by omega
+      subst this
+      simp only [hlt, if_false]; rfl
+
+/-- **read completely**: when the device serves the advertised range from an image, the
+stepwise read returns exactly the `size` bytes stored at `addr`, whatever the size. -/
+theorem readFileP_mem (dev : Nat → Nat → R Bytes) (mem : Nat → UInt8) (addr size : Nat)
+    (hs : ServesFile dev mem addr size) (ha : addr + size ≤ 2 ^ 64) :
+    readFileP dev addr size = .ok (memRange mem addr size) := by
+  have h := readFileLoopP_mem dev mem addr size hs ha (size / XML_READ_STEP + 1) 0 (Nat.zero_le _) (by
+    have := Nat.lt_div_mul_add (a := size) (b := XML_READ_STEP) (by decide)
+    rw [Nat.add_mul]; omega)
+  simpa [readFileP, memRange] using h
+
+/-- a file of at most one step is one `DeviceControl::read` of exactly `(addr, size)` -/
+theorem readFileP_small (dev : Nat → Nat → R Bytes) (addr size : Nat) (h0 : 0 < size)
+    (hs : size ≤ XML_READ_STEP) (ha : addr < 2 ^ 64) :
+    readFileP dev addr size = dev addr size := by
+  have hf : size / XML_READ_STEP + 1 = (size / XML_READ_STEP) + 1 := rfl
+  unfold readFileP
+  rw [hf]
+  unfold readFileLoopP
+  simp only [h0, if_true, Nat.add_zero, Nat.sub_zero, Nat.min_eq_right hs, ha, Res.bind_ok, List.nil_append, Nat.zero_add]
+  cases dev addr size with
+  | err e => rfl
+  | panic => rfl
+  | ok bs =>
+    simp only [Res.bind_ok]
+    cases hq : size / XML_READ_STEP with
+    | zero => rfl
+    | succ k => unfold readFileLoopP; simp
+
+/-- an advertised size of 0 causes no device access -/
+theorem readFileP_zero (dev : Nat → Nat → R Bytes) (addr : Nat) : readFileP dev addr 0 = .ok [] := by
+  simp [readFileP, readFileLoopP]
+
 end CamVerif.GenApiFetch
